@@ -618,10 +618,10 @@ mutual
       have viaGroup : ∀ (s0 : St) (b : Bool), Holds u s0.root → allE P s0.root →
           (do
             let s ← mergeGroup now tombs s0 (path ++ [ou]) (.group ou oc ot ocs) b
-            mergeSubgroups now tombs s path inDel rest) = .ok s' → allE P s'.root := by
+            mergeSubgroups now tombs s (refreshPath s.root path) inDel rest) = .ok s' → allE P s'.root := by
         intro s0 b hH0 hT0 hk
         obtain ⟨s1, hs1, hk⟩ := except_bind_ok hk
-        exact mergeSubgroups_allE P hP u now tombs rest s1 s' path inDel hS.2
+        exact mergeSubgroups_allE P hP u now tombs rest s1 s' _ inDel hS.2
           (holds_group u now tombs _ s0 s1 _ b hH0 hs1)
           (mergeGroup_allE P hP u now tombs (.group ou oc ot ocs) s0 s1 _ b hog hH0 hT0 hs1) hk
       split at h
@@ -1046,7 +1046,7 @@ mutual
       have viaGroup : ∀ (s0 : St) (b : Bool), Holds c.u s0.root → allE c.P0 s0.root → (allE c.P1 s.root → allE c.P1 s0.root) →
           (do
             let s ← mergeGroup c.now tombs s0 (path ++ [ou]) (.group ou oc ot ocs) b
-            mergeSubgroups c.now tombs s path inDel rest) = .ok s' → allE c.P1 s'.root := by
+            mergeSubgroups c.now tombs s (refreshPath s.root path) inDel rest) = .ok s' → allE c.P1 s'.root := by
         intro s0 b hH0 hT0 h10 hk
         obtain ⟨s1, hs1, hk⟩ := except_bind_ok hk
         have hH1 := holds_group c.u c.now tombs _ s0 s1 _ b hH0 hs1
@@ -1057,11 +1057,11 @@ mutual
             exact Or.inr hv
         rcases hvis with hv0 | hv0 | hv0
         · have := mergeGroup_allE c.P1 c.p1_locFree c.u c.now tombs _ s0 s1 _ b (c.src_ok1 _ hog) hH0 hv0 hs1
-          exact mergeSubgroups_allE c.P1 c.p1_locFree c.u c.now tombs rest s1 s' path inDel hS1 hH1 this hk
+          exact mergeSubgroups_allE c.P1 c.p1_locFree c.u c.now tombs rest s1 s' _ inDel hS1 hH1 this hk
         · have := mergeGroup_lww c tombs (.group ou oc ot ocs) s0 s1 _ b hog hH0 hT0 hs1 (Or.inr (by simpa only [Node.children] using hv0))
-          exact mergeSubgroups_allE c.P1 c.p1_locFree c.u c.now tombs rest s1 s' path inDel hS1 hH1 this hk
+          exact mergeSubgroups_allE c.P1 c.p1_locFree c.u c.now tombs rest s1 s' _ inDel hS1 hH1 this hk
         · have := mergeGroup_allE c.P0 c.p0_locFree c.u c.now tombs _ s0 s1 _ b (c.src_ok0 _ hog) hH0 hT0 hs1
-          exact mergeSubgroups_lww c tombs rest s1 s' path inDel hS.2 hH1 this hk (Or.inr hv0)
+          exact mergeSubgroups_lww c tombs rest s1 s' _ inDel hS.2 hH1 this hk (Or.inr hv0)
       split at h
       · exact viaGroup s true hH hT id h
       · split at h
@@ -1329,15 +1329,15 @@ theorem merge_track (c : Track) (dst src d' : Db) (evs : List Event) (hH0 : Hold
   have hT4 := deleteEntries_allE c.P1 c.now src.tombs s2 dst.tombs s4 nt4 hT2 hr4
   exact deleteGroups_allE c.P1 c.now _ s4 nt4 _ s3 tombs hT4 hx
 
-/-- **last writer wins, for the whole merge**: an entry that the destination and the source both hold has, in the result of the
-    merge, the content of the destination's version unless the source's modification time is strictly later, in which case it
-    has the source's.  (Wherever the entry ends up, and whatever else the merge did.) -/
-theorem merge_entry_lww (now : Int) (dst src d' : Db) (evs : List Event) (hI : Inv dst.root) (hIs : Inv src.root)
+/-- the same with the state the entry is left in: the destination's version or the source's, content and modification time -/
+theorem merge_entry_lww_state (now : Int) (dst src d' : Db) (evs : List Event) (hI : Inv dst.root) (hIs : Inv src.root)
     (h : merge now dst src = .ok (d', evs))
     (pd ps pr : List Nat) (de se e' : Entry)
     (hd : findEntry dst.root pd = some de) (hs : findEntry src.root ps = some se) (hu : de.d.uuid = se.d.uuid)
     (hr : findEntry d'.root pr = some e') (hu' : e'.d.uuid = se.d.uuid) :
-    e'.d.content = if de.d.times.mtime.getD now ≥ se.d.times.mtime.getD 0 then de.d.content else se.d.content := by
+    ((e'.d.content = de.d.content ∧ e'.d.times.mtime = de.d.times.mtime)
+      ∨ (e'.d.content = se.d.content ∧ e'.d.times.mtime = se.d.times.mtime))
+    ∧ e'.d.content = (if de.d.times.mtime.getD now ≥ se.d.times.mtime.getD 0 then de.d.content else se.d.content) := by
   let c : Lww := ⟨se.d.uuid, de.d.content, de.d.times.mtime, se.d.content, se.d.times.mtime, now⟩
   have hgd := findEntry_some hd
   have hgs := findEntry_some hs
@@ -1362,4 +1362,19 @@ theorem merge_entry_lww (now : Int) (dst src d' : Db) (evs : List Event) (hI : I
   have hT3 := merge_track c.track dst src d' evs hH0 hT0 hS hv h
   have := allE_getPath c.P1 pr d'.root _ hT3 (findEntry_some hr)
   simp only [allE] at this
-  exact (this hu').2
+  obtain ⟨hst, hc⟩ := this hu'
+  refine ⟨?_, hc⟩
+  rcases hst with ⟨a, b⟩ | ⟨a, b, _⟩
+  · exact Or.inl ⟨a, b⟩
+  · exact Or.inr ⟨a, b⟩
+
+/-- **last writer wins, for the whole merge**: an entry that the destination and the source both hold has, in the result of the
+    merge, the content of the destination's version unless the source's modification time is strictly later, in which case it
+    has the source's.  (Wherever the entry ends up, and whatever else the merge did.) -/
+theorem merge_entry_lww (now : Int) (dst src d' : Db) (evs : List Event) (hI : Inv dst.root) (hIs : Inv src.root)
+    (h : merge now dst src = .ok (d', evs))
+    (pd ps pr : List Nat) (de se e' : Entry)
+    (hd : findEntry dst.root pd = some de) (hs : findEntry src.root ps = some se) (hu : de.d.uuid = se.d.uuid)
+    (hr : findEntry d'.root pr = some e') (hu' : e'.d.uuid = se.d.uuid) :
+    e'.d.content = if de.d.times.mtime.getD now ≥ se.d.times.mtime.getD 0 then de.d.content else se.d.content :=
+  (merge_entry_lww_state now dst src d' evs hI hIs h pd ps pr de se e' hd hs hu hr hu').2
